@@ -7,6 +7,7 @@ import Rtp.Proofs.Obu
 import Rtp.Proofs.AV1RT
 namespace Rtp.Props.C13
 open Rtp Rtp.Model Rtp.Model.AV1 Rtp.Spec.Av1Rtp
+open Rtp.Model.ObuLemmas
 
 /-! ### LEB128 -/
 
